@@ -158,8 +158,10 @@ class SCPConnection(object):
         self.sock.setblocking(False)
 
         # Calculate the receive length, this should be the smallest power of
-        # two greater than the required size
-        max_length = buffer_size + consts.SDP_HEADER_LENGTH
+        # two greater than the required size: the data buffer, the SDP header
+        # with the two padding bytes which precede it and the SCP header
+        # (command, sequence number and up to three arguments)
+        max_length = buffer_size + consts.SDP_HEADER_LENGTH + 2 + 16
         receive_length = int(2**math.ceil(math.log(max_length, 2)))
 
         class TransmittedPacket(object):
